@@ -264,7 +264,7 @@ def unwrap_jobs(ctx, invariants, ops, lite=False):
         ("unwrap-one", [lines_gen(8, 1, 1, ["Ru"], free=(0, 1, 2), blank=True), lines_gen(10, 1, 1, ["Ru"], free=(1,), blank=True)]),
         ("unwrap-mixed", [lines_gen(9, 2, 2, ["Ru", "R", "P"], free=(1,), blank=False)]),
         ("unwrap-nested", [lines_gen(13, 2, 2, ["Ru"], blank=False), lines_gen(11, 2, 2, ["Ru", "Pu"], base=1, blank=False),
-                           lines_gen(13, 2, 3, ["Ru", "R"], blank=False), lines_gen(12, 3, 4, ["Ru", "R", "P"], blank=False, base=1),
+                           lines_gen(13, 2, 3, ["Ru", "R"], blank=False, max_code=6), lines_gen(11, 3, 3, ["Ru", "R", "P"], blank=False, base=1, max_code=5),
                            lines_gen(14, 3, 3, ["Ru"], blank=False)]),
         ("unwrap-tab", [lines_gen(8, 1, 1, ["Tu"], unit="\t", free=(0, 1, 2), blank=False, suffix="あ")]),
         ("unwrap-pairs", [lines_gen(9, 2, 2, ["Ru", "P"], blank=False, pairs=True, max_code=5)]),
